@@ -1227,7 +1227,6 @@ func (g *connGroup) connect(ctx context.Context, addr net.Addr) (*conn, error) {
 	}
 
 	pc.SetVersions(ver)
-	pc.SetDeadline(time.Time{})
 
 	if g.pool.sasl != nil {
 		host, port, err := splitHostPortNumber(netAddr.String())
@@ -1242,6 +1241,11 @@ func (g *connGroup) connect(ctx context.Context, addr net.Addr) (*conn, error) {
 			return nil, err
 		}
 	}
+
+	// The dial deadline covers the whole set-up, the SASL exchange included: a
+	// broker that stops answering in the middle of the authentication must
+	// not keep this goroutine and the connection forever.
+	pc.SetDeadline(time.Time{})
 
 	reqs := make(chan connRequest)
 	c := &conn{
